@@ -23,6 +23,14 @@ UNIT = dict(
                    (r'\bsscanf\(', 'env_sscanf('), (r'self->m_mode\.listenMode != lm_none', 'self->m_listening')],
     ),
     functions=[
+        dict(file=REQ_CPP, name='RequestImpl::split', cname='Request_split', self='struct Request', params_c=['struct svec* args'],
+             pre_subs=[(r'string token, previous;', 'string token = vstr_new(), previous = vstr_new();', 1),
+                       (r'istringstream stream\(m_request\);', 'struct sstream stream = ss_open(&m_request);', 1),
+                       (r'getline\(stream, token, delim\)', 'ss_getline(&stream, &token, delim)', 1),
+                       (r'args->pop_back\(\);', 'svec_pop_back(args);', 1), (r'args->push_back\(token\);', 'svec_push_back(args, &token);', 1),
+                       (r'args->size\(\)', 'svec_size(args)', 1),
+                       (r'token = previous \+ " " \+ token;', "token = vstr_cat3(&previous, ' ', &token);", 1),
+                       (r'token\[token\.length\(\)-1\]', 'vstr_at(&token, vstr_length(&token)-1)', 2), (r'token\[0\]', 'vstr_at(&token, 0)', 3)]),
         dict(file=REQ_CPP, name='RequestImpl::add', cname='Request_add', self='struct Request',
              pre_subs=[(r'add\.erase\(remove\(add\.begin\(\), add\.end\(\), \'\\r\'\), add\.end\(\)\);', "vstr_remove_char(&add, '\\r');", 1)]),
     ],
@@ -37,3 +45,5 @@ def R(id, entry, enforce=None, replace=(), loops=False, props=('C18', 'C20'), **
 
 R('http_decode', 'h_http_decode', None, unwind=16, defines=['VSTR_CAP=14'], cost=60, timeout=1500,
   bounded='request text up to 14 characters (string model capacity)')
+R('split_tcp', 'h_split_tcp', None, unwind=12, defines=['VSTR_CAP=9'], cost=60, timeout=1500,
+  bounded='command lines up to 9 characters (string model capacity), full character set')
